@@ -38,7 +38,7 @@ class FieldCodeGenerator:
         self._data = data
         self._name = name
         self._type_string = type_string
-        self._length_string = length_string
+        self._length_string = _normalize_decimal(length_string)
         self._padded = padded
         self._optional = optional
         self._hardcoded_value = hardcoded_value
@@ -235,7 +235,7 @@ class FieldCodeGenerator:
         elif isinstance(field_type, BoolType):
             expression = "True" if self._hardcoded_value == "true" else "False"
         else:
-            expression = self._hardcoded_value
+            expression = _normalize_decimal(self._hardcoded_value)
 
         init_param = CodeBlock().add(f'{self._name}: {python_param_type_name}')
         if self._optional:
@@ -437,7 +437,7 @@ class FieldCodeGenerator:
             type_ = self._get_type()
             if isinstance(type_, IntegerType):
                 if is_decimal_integer(self._hardcoded_value):
-                    return self._hardcoded_value
+                    return _normalize_decimal(self._hardcoded_value)
                 raise RuntimeError(f'"{self._hardcoded_value}" is not a valid integer value.')
             elif isinstance(type_, BoolType):
                 if self._hardcoded_value == "false":
@@ -729,6 +729,11 @@ class FieldCodeGeneratorBuilder:
 def _string_literal(value):
     escaped = value.encode('unicode_escape').decode('ascii').replace('"', '\\"')
     return f'"{escaped}"'
+
+
+def _normalize_decimal(value):
+    # "007" is a valid integer in the protocol files, but not a valid Python literal.
+    return str(int(value)) if is_decimal_integer(value) else value
 
 
 def get_max_value_of(integer_type):
